@@ -378,7 +378,7 @@ def main(tier="quick", seed=0, only=None):
     # every base archive that needs no password: each decoder family fails in its own way (an LZMA1 stream that
     # ends early raises a different exception class than a CRC mismatch; seeded change C19b hid behind that)
     bases = basegen.all_bases(tier)
-    pick = [i for i, b in enumerate(bases) if b["password"] is None and (tier == "quick" or ":3f" not in b["name"])]
+    pick = [i for i, b in enumerate(bases) if b["password"] is None and b["has_crc"] and (tier == "quick" or ":3f" not in b["name"])]
     for i in pick:
         n = sum(1 for _ in damage_images(bases[i]["blob"], bases[i]["packed"], ("flip", "trunc")))
         step = 300
